@@ -36,6 +36,15 @@ class CallMixin:
             return self.obj_attr(v, name)
         if isinstance(v, SRef):
             sch = self.env.classes[v.cls]
+            side = self.ghost.get('@refattrs', {}).get((v.t.key(), name), _MISSING)
+            if side is not _MISSING:
+                return side
+            hk = self.env.ref_attr_hooks.get((v.cls, name))
+            if hk is not None:
+                return hk(self, v)
+            rm = self.env.ref_methods.get((v.cls, name))
+            if rm is not None:
+                return BoundMeth(v, rm)
             if name in sch.get('fields', {}):
                 ty = parse_type(sch['fields'][name])
                 if ty[0] == 'opt':
@@ -139,6 +148,13 @@ class CallMixin:
         raise Unsupported('attribute %s of %r is not declared in the schema' % (name, o))
 
     def set_attr(self, v, name, val):
+        if isinstance(v, SRef):
+            # attributes set on a record seen through a reference: kept in a side table
+            # (only meaningful for references with a syntactically unique term)
+            d = dict(self.ghost.get('@refattrs', {}))
+            d[(v.t.key(), name)] = val
+            self.ghost['@refattrs'] = d
+            return
         if isinstance(v, Obj):
             self.heap[v.oid] = dict(self.heap[v.oid])
             self.heap[v.oid][name] = val
@@ -290,6 +306,9 @@ class CallMixin:
                        smt.Ite(smt.Le(t, n), t, n))
 
     def _seq_slice(self, sv, lo, hi):
+        if lo is None and hi == -1 and sv.t.op == 'seq.++' and sv.t.args[-1].op == 'seq.unit':
+            rest = sv.t.args[:-1]
+            return SSeqV(rest[0] if len(rest) == 1 else smt.SeqConcat(*rest), sv.ety)
         n = smt.SeqLen(sv.t)
         lo_t = self._norm_index(lo, n, smt.IntC(0))
         hi_t = self._norm_index(hi, n, n)
